@@ -107,7 +107,7 @@ example : timestr (.int 93784) [' '] 3 = some ['1', 'd', ' ', '2', 'h', ' ', '3'
 theorem negative_to_zero (q : Rat) (k : Kind) :
     timePeriod (.atom (.num q k)) = .ok (some (if q < 0 then 0 else q)) := rfl
 
-theorem negative_to_zero' (q : Rat) (k : Kind) (hq : q < 0) :
+theorem negative_number_is_zero (q : Rat) (k : Kind) (hq : q < 0) :
     timePeriod (.atom (.num q k)) = .ok (some 0) := by
   rw [negative_to_zero, if_pos hq]
 
